@@ -4,6 +4,7 @@ import (
 	"fmt"
 	"math"
 	"regexp"
+	"strconv"
 	Time "time"
 )
 
@@ -260,6 +261,8 @@ var (
 		Time.RFC1123,
 	}
 	matchDateTimeZone = regexp.MustCompile(`^(.*)(?:(Z)|([\+\-]\d{2}):(\d{2}))$`)
+	// 15.9.1.15.1: expanded years are a sign followed by six digits.
+	matchDateExpandedYear = regexp.MustCompile(`^([\+\-]\d{6})(.*)$`)
 )
 
 // dateParse returns the epoch of the parsed date.
@@ -267,6 +270,16 @@ func dateParse(date string) float64 {
 	// YYYY-MM-DDTHH:mm:ss.sssZ
 	var time Time.Time
 	var err error
+
+	// Go layouts only read four-digit years: parse with the year of the same
+	// position in the 400-year cycle (same leap rule) and shift afterwards.
+	yearShift := 0
+	if match := matchDateExpandedYear.FindStringSubmatch(date); match != nil {
+		year, _ := strconv.Atoi(match[1])
+		standIn := 2000 + ((year%400)+400)%400
+		yearShift = year - standIn
+		date = fmt.Sprintf("%04d%s", standIn, match[2])
+	}
 
 	if match := matchDateTimeZone.FindStringSubmatch(date); match != nil {
 		if match[2] == "Z" {
@@ -287,5 +300,9 @@ func dateParse(date string) float64 {
 		return math.NaN()
 	}
 
-	return float64(time.UnixMilli())
+	epoch := float64(time.AddDate(yearShift, 0, 0).UnixMilli())
+	if math.Abs(epoch) > 8.64e15 {
+		return math.NaN()
+	}
+	return epoch
 }
